@@ -4,3 +4,7 @@
 mod support;
 #[cfg(kani)]
 mod runloop;
+#[cfg(kani)]
+mod retfwd;
+#[cfg(kani)]
+mod syncs;
